@@ -63,6 +63,9 @@ func init() {
 	mutant(&Mutant{Name: "c06-peek-reuse-without-compaction", Property: "C06", File: "xml/buffer.go",
 		Old: "\t\t} else {\n\t\t\tbuf = z.buf\n\t\t}\n\t\tcopy(buf[:d], z.buf[z.pos:])\n", New: "\t\t\tcopy(buf[:d], z.buf[z.pos:])\n\t\t} else {\n\t\t\tbuf = z.buf\n\t\t}\n",
 		Rule: "R06.8", Construct: "unread tokens moved"})
+	mutant(&Mutant{Name: "c07-zero-restored-blindly", Property: "C07", File: "json/json.go",
+		Old: "\t\t\t\tif orig != nil && len(orig) <= len(text) {\n\t\t\t\t\ttext = orig // the leading zero", New: "\t\t\t\tif false {\n\t\t\t\t\ttext = orig // the leading zero",
+		Rule: "R07.11", Construct: "byte added#1"})
 	mutant(&Mutant{Name: "c07-guard-includes-plus", Property: "C07", File: "json/json.go",
 		Old: "('0' <= text[0] && text[0] <= '9' || text[0] == '-')", New: "('+' <= text[0] && text[0] <= '9' || text[0] == '-')",
 		Rule: "R07.1", Construct: "number guard"})
@@ -70,10 +73,10 @@ func init() {
 		Old: "\t\tw.Write(text)\n\t}\n}", New: "\t\tif 2 < len(text) && text[1] == ' ' {\n\t\t\ttext = append(text[:1], text[2:]...)\n\t\t}\n\t\tw.Write(text)\n\t}\n}",
 		Rule: "R07.1", Construct: "text assigned"})
 	mutant(&Mutant{Name: "c07-no-leading-zero", Property: "C07", File: "json/json.go",
-		Old: "\t\t\tif text[0] == '.' {\n\t\t\t\tw.Write(zeroBytes)\n\t\t\t} else if", New: "\t\t\tif text[0] == '.' && len(text) > 8 {\n\t\t\t\tw.Write(zeroBytes)\n\t\t\t} else if",
+		Old: "\t\t\tif text[0] == '.' {\n\t\t\t\tif orig != nil", New: "\t\t\tif text[0] == '.' && len(text) > 8 {\n\t\t\t\tif orig != nil",
 		Rule: "R07.3", Construct: "leading zero"})
 	mutant(&Mutant{Name: "c07-minus-zero-keeps-sign", Property: "C07", File: "json/json.go",
-		Old: "\t\t\t\ttext = text[1:]\n\t\t\t\tw.Write(minusZeroBytes)\n", New: "\t\t\t\tw.Write(minusZeroBytes)\n",
+		Old: "\t\t\t\t\ttext = text[1:]\n\t\t\t\t\tw.Write(minusZeroBytes)\n", New: "\t\t\t\t\tw.Write(minusZeroBytes)\n",
 		Rule: "R07.3", Construct: "minus"})
 }
 
@@ -578,7 +581,7 @@ func evalBytePred(info *types.Info, e ast.Expr, v string, b int64) (bool, bool) 
 func runC07(c *Ctx) {
 	runC07own(c)
 	// JSON numbers are rewritten by minify.Number: its value-level shape rules are necessary for `numerically equal`
-	c.alsoUnder(map[string]string{"R08.3": "R07.4", "R08.4": "R07.5", "R08.5": "R07.6", "R08.6": "R07.7"}, func(construct string) bool {
+	c.alsoUnder(map[string]string{"R08.3": "R07.4", "R08.4": "R07.5", "R08.5": "R07.6", "R08.6": "R07.7", "R08.7": "R07.8", "R08.8": "R07.9", "R08.9": "R07.10"}, func(construct string) bool {
 		return strings.Contains(construct, "minify.Number") || strings.HasPrefix(construct, "floor/")
 	}, func() { runC08(c) })
 }
@@ -587,7 +590,7 @@ func runC07own(c *Ctx) {
 	const r1, r2, r3 = "R07.1", "R07.2", "R07.3"
 	c.R.Rule(r1, "in json.(*Minifier).Minify the condition of the branch that calls minify.Number, restricted to its conjuncts over text[0], holds exactly for the bytes '-' and '0'..'9' (evaluated for all 256 byte values); the variable holding the token text is assigned only inside that branch (besides its definition from the parser), so every other token is written unchanged")
 	c.R.Rule(r2, "assuming o.KeepNumbers: the call of minify.Number and the writes of the zero-repair bytes are unreachable")
-	c.R.Rule(r3, "on every path from the minify.Number call to the write of the number: if text[0] == '.' then \"0\" is written before it; if text[0] == '-' and text[1] == '.' then \"-0\" is written before it and text is advanced past the sign; the repair constants evaluate to \"0\" and \"-0\"")
+	c.R.Rule(r3, "on every path from the minify.Number call to the write of the number: if text[0] == '.' then \"0\" is written before it; if text[0] == '-' and text[1] == '.' then \"-0\" is written before it and text is advanced past the sign (or a copy of the token taken before the call is written instead); the repair constants evaluate to \"0\" and \"-0\"")
 	pk := c.pkg(r1, "json")
 	if pk == nil {
 		return
@@ -713,6 +716,44 @@ func runC07own(c *Ctx) {
 		p := unreachableWhen(g, n, "o.KeepNumbers", true)
 		c.R.Check(p == nil, r2, fmt.Sprintf("json.Minifier.Minify/number rewrite site#%d unreachable when KeepNumbers", i+1), c.pos(n.Ast()), "guarded", "with KeepNumbers a number lexeme is still rewritten: "+pathStr(c, g, p))
 	}
+	witness := map[types.Object]bool{}
+	for _, n := range g.Nodes {
+		if n.Kind != flow.KStmt || n == numN || n.Ast() == nil || ifs == nil || n.Ast().Pos() < ifs.Body.Pos() || n.Ast().End() > numN.Ast().Pos() {
+			continue
+		}
+		as, ok := n.Stmt.(*ast.AssignStmt)
+		if !ok {
+			continue
+		}
+		mentionsText := false
+		for _, r := range as.Rhs {
+			ast.Inspect(r, func(q ast.Node) bool {
+				if id, ok := q.(*ast.Ident); ok && id.Name == textName {
+					mentionsText = true
+				}
+				return true
+			})
+		}
+		if !mentionsText {
+			continue
+		}
+		for _, l := range as.Lhs {
+			if id, ok := l.(*ast.Ident); ok && id.Name != textName {
+				if o := info.ObjectOf(id); o != nil {
+					witness[o] = true
+				}
+			}
+		}
+	}
+	// an assignment of a pre-call copy back to text: the original lexeme is written instead of the rewritten one
+	restores := func(y *flow.Node) bool {
+		rhs, ok := assignsTo(y, func(l ast.Expr) bool { return str(l) == textName })
+		if !ok {
+			return false
+		}
+		id, isId := ast.Unparen(rhs).(*ast.Ident)
+		return isId && witness[info.Uses[id]]
+	}
 	// R07.3
 	zeroV, _, _ := c.Ev.PackageVar(pk, "zeroBytes")
 	minusV, _, _ := c.Ev.PackageVar(pk, "minusZeroBytes")
@@ -730,13 +771,13 @@ func runC07own(c *Ctx) {
 		return flow.Search{From: []*flow.Node{numN}, Goal: func(y *flow.Node) bool { return y == writeN }, AssumeRaw: m}
 	}
 	q := raw(map[string]bool{v0 + " == '.'": true})
-	q.Avoid = writesVar("zeroBytes")
+	q.Avoid = func(y *flow.Node) bool { return writesVar("zeroBytes")(y) || restores(y) }
 	p := g.Path(q)
 	c.R.Check(p == nil, r3, "json.Minifier.Minify/leading zero restored for .5", c.pos(numN.Ast()), "\"0\" written before a number starting with '.'", "minify.Number may return `.5`; it can reach the output without the leading 0 that JSON requires: "+pathStr(c, g, p))
 	// text[1] == '.' presupposes a second byte: the length tests are stipulated accordingly
 	q = raw(map[string]bool{v0 + " == '.'": false, v0 + " == '-'": true, v1 + " == '.'": true,
 		"1 < len(" + textName + ")": true, "len(" + textName + ") > 1": true, "2 <= len(" + textName + ")": true, "len(" + textName + ") >= 2": true})
-	q.Avoid = writesVar("minusZeroBytes")
+	q.Avoid = func(y *flow.Node) bool { return writesVar("minusZeroBytes")(y) || restores(y) }
 	p = g.Path(q)
 	c.R.Check(p == nil, r3, "json.Minifier.Minify/leading zero restored for minus .5", c.pos(numN.Ast()), "\"-0\" written before a number starting with \"-.\"", "`-.5` can reach the output without the leading 0 that JSON requires: "+pathStr(c, g, p))
 	// after writing "-0" the sign is dropped from text
@@ -759,6 +800,27 @@ func runC07own(c *Ctx) {
 		}
 		_ = before
 		c.R.Check(betw || after, r3, "json.Minifier.Minify/minus sign dropped after writing -0", c.pos(n.Ast()), "text = text[1:] accompanies the \"-0\" write", "\"-0\" is written but the sign stays in the number: `-.5` becomes `-0-.5`")
+	}
+	// R07.11: a byte is added only after looking at what the input was
+	const r11 = "R07.11"
+	c.R.Rule(r11, "minify.Number returns the shortest form, dropping the zero before the dot; JSON needs that zero back, and for an input that was already shortest in exponent form (`1e-3` → `.001`) the repaired number `0.001` is longer than the input. The output is never longer than the input only if the decision to add a byte consults the input: every path from the minify.Number call to a write of a repair constant passes a test of a variable that was set from the token before the call (its length or a copy — the call overwrites the token in place)")
+	consults := func(y *flow.Node) bool {
+		if y.Kind != flow.KCond {
+			return false
+		}
+		found := false
+		ast.Inspect(y.Expr, func(q ast.Node) bool {
+			if id, ok := q.(*ast.Ident); ok && witness[info.Uses[id]] {
+				found = true
+			}
+			return true
+		})
+		return found
+	}
+	for i, n := range zeroWriteNodes(c, pk, g) {
+		n := n
+		p := g.Path(flow.Search{From: []*flow.Node{numN}, Goal: func(y *flow.Node) bool { return y == n }, Avoid: consults})
+		c.R.Check(p == nil, r11, fmt.Sprintf("json.Minifier.Minify/byte added#%d only after consulting the input", i+1), c.pos(n.Ast()), "behind a test of the saved input", "a byte is added to the number without looking at the length of the input: `[1e-3]` becomes `[0.001]`, one byte longer than the input")
 	}
 }
 
